@@ -90,7 +90,8 @@ def _segment(ctx):
     for order in (('self', 'other'), ('other', 'self')):
         n = Norm()
         sx = SymEx(f)
-        outs = sx.run(b, [SYM(order[0]), SYM(order[1])])
+        from ..sym import split_boolean_outcomes
+        outs = split_boolean_outcomes(sx.run(b, [SYM(order[0]), SYM(order[1])]))
         if not outs or sx.aborted:
             rep.fail('R2', 'segment-loop-free', where(b), 'Line2::intersects is not loop-free', 'undecidable-shape')
             return
